@@ -568,13 +568,21 @@ pub fn doc_cases(spec: &Spec, o: &mut Outs) {
 pub fn gen_specs(ctx: &Ctx) -> Vec<Spec> {
     let mut rng = Rng::new(ctx.seed ^ 0xC05);
     let mut out = vec![];
-    let reps = if ctx.thorough() { 4 } else { 1 };
+    let reps = if ctx.thorough() { 5 } else { 1 };
     let perms = [0xFFFF_FFFCu32, 0xFFFF_F0C0, 0xFFFF_F0C4, 0xFFFF_FFFC & !0x10, 0xFFFF_F2C4, 0xFFFF_F8C4];
     for _ in 0..reps {
         for strength in 0..4u64 {
             for cfg in 0..6u64 {
                 let heavy = cfg >= 4; // object streams: /Size 1000001, seconds per open
-                let npw = if heavy { 1 } else { 3 };
+                if heavy && !ctx.thorough() {
+                    // quick: object streams for two strengths per run (alternating with the seed);
+                    // the uncompressed variant (not readable even in plaintext today) for one
+                    let pick = (strength + ctx.seed) % 2 == 0;
+                    if (cfg == 4 && !pick) || (cfg == 5 && strength != ctx.seed % 4) {
+                        continue;
+                    }
+                }
+                let npw = if heavy { 1 } else { 2 };
                 for _ in 0..npw {
                     let (user, owner) = passwords(&mut rng);
                     let mut doc = sample_doc(&mut rng, heavy);
